@@ -2,7 +2,9 @@
 package utild
 
 import (
+	"errors"
 	"fmt"
+	"math/rand"
 
 	"github.com/biogo/biogo/util"
 
@@ -31,5 +33,90 @@ func DeBruijn(w *vt.W, maxLen int) {
 			}()
 			w.Emit(ev)
 		}
+	}
+}
+
+// capWriter is the writer underneath a Wrapper: it takes rem more bytes (rem < 0: any number) and then fails.
+type capWriter struct {
+	rem int
+	buf []byte
+}
+
+var errFull = errors.New("full")
+
+func (c *capWriter) Write(p []byte) (int, error) {
+	k := len(p)
+	if c.rem >= 0 && c.rem < k {
+		k = c.rem
+	}
+	c.buf = append(c.buf, p[:k]...)
+	if c.rem >= 0 {
+		c.rem -= k
+	}
+	if k < len(p) {
+		return k, errFull
+	}
+	return k, nil
+}
+
+func wrapRun(w *vt.W, width, limit, cap int, sizes []int) {
+	ev := vt.Ev{"op": "wrap", "width": width, "limit": limit, "cap": cap, "panic": ""}
+	cw := &capWriter{rem: cap, buf: []byte{}}
+	calls, rets := [][]int{}, []vt.Ev{}
+	from := 0
+	func() {
+		defer func() {
+			if p := recover(); p != nil {
+				ev["panic"] = fmt.Sprint(p)
+			}
+		}()
+		wr := util.NewWrapper(cw, width, limit)
+		for _, k := range sizes {
+			p := make([]byte, k)
+			for i := range p {
+				p[i] = byte(97 + (from+i)%26)
+			}
+			from += k
+			calls = append(calls, vt.Ints(p))
+			n, err := wr.Write(p)
+			rets = append(rets, vt.Ev{"ret": n, "err": err != nil})
+		}
+	}()
+	ev["calls"], ev["rets"], ev["out"] = calls, rets, vt.Ints(cw.buf)
+	w.Emit(ev)
+}
+
+// Wrappers logs histories of Write calls on util.Wrapper: every history of up to 3 calls of 0..4 bytes under a grid
+// of widths, limits and capacities of the underlying writer, then n random larger ones.
+func Wrappers(w *vt.W, rng *rand.Rand, n int) {
+	var seqs [][]int
+	var gen func(prefix []int)
+	gen = func(prefix []int) {
+		if len(prefix) > 0 {
+			seqs = append(seqs, append([]int{}, prefix...))
+		}
+		if len(prefix) == 3 {
+			return
+		}
+		for k := 0; k <= 4; k++ {
+			gen(append(prefix, k))
+		}
+	}
+	gen(nil)
+	for _, width := range []int{-1, 0, 1, 2, 3} {
+		for _, limit := range []int{-1, 0, 2, 5} {
+			for _, cap := range []int{-1, 0, 3, 7} {
+				for _, s := range seqs {
+					wrapRun(w, width, limit, cap, s)
+				}
+			}
+		}
+	}
+	for i := 0; i < n; i++ {
+		sizes := make([]int, 1+rng.Intn(6))
+		for j := range sizes {
+			sizes[j] = rng.Intn(26)
+		}
+		wrapRun(w, rng.Intn(12)-1, rng.Intn(60)-10, []int{-1, -1, rng.Intn(80)}[rng.Intn(3)], sizes)
 	}
 }
